@@ -5,6 +5,7 @@
 #include <errno.h>
 #include <deque>
 #include <unordered_set>
+#include <functional>
 
 namespace {
 struct Local { uint64_t states = 0, transitions = 0, replays = 0, backend_failures = 0, overflow_refusals = 0, max_depth = 0; std::map<Str, uint64_t> by_op; };
@@ -124,6 +125,101 @@ struct Machine {
     Str drain() { for (auto &s : slots) if (s.live) { mm.free(&mm, s.p); s.live = false; } if (!be.live.empty()) return fmt("%zu backend block(s) still allocated after the caller freed everything", be.live.size()); if (!be.errors.empty()) return be.errors[0]; return ""; }
 };
 
+
+// ---- giant family: blocks of 4 GiB and more -------------------------------------------------------------------------------------
+// The BFS backend refuses anything above 4 GiB, so sizes that do not fit 32 bits never reach the decorator's arithmetic and copy lengths.
+// Here the backend hands out address space only (mmap, MAP_NORESERVE), contents are checked on a sparse set of offsets (the first 16 KiB,
+// the last 4 KiB, and the neighbourhood of offset 2^32), and ALL operation sequences up to length 3 over a small alphabet are run.
+// Growing a block that is already giant is left out (it would copy 4 GiB for real).
+#include <sys/mman.h>
+struct GBackend {
+    UriMemoryManager mm; std::map<char *, std::pair<size_t, std::pair<char *, size_t> > > live; /* block -> (n, (mapping, length)) */ std::vector<std::string> errors; uint64_t n_malloc, n_free;
+    GBackend() { mm.malloc = s_malloc; mm.free = s_free; mm.calloc = 0; mm.realloc = 0; mm.reallocarray = 0; mm.userData = this; n_malloc = n_free = 0; }
+    static void *s_malloc(UriMemoryManager *m, size_t n) {
+        GBackend *b = (GBackend *)m->userData; b->n_malloc++;
+        if (n > ((size_t)1 << 36)) { errno = ENOMEM; return 0; }
+        size_t pg = 4096, body = (n + pg - 1) / pg * pg, len = body + 2 * pg;
+        char *raw = (char *)mmap(0, len, PROT_READ | PROT_WRITE, MAP_PRIVATE | MAP_ANONYMOUS | MAP_NORESERVE, -1, 0); if (raw == (char *)MAP_FAILED) { errno = ENOMEM; return 0; }
+        mprotect(raw, pg, PROT_NONE); mprotect(raw + pg + body, pg, PROT_NONE);
+        char *blk = raw + pg + ((body - n) & ~(size_t)15);          // the block ends (up to 15 bytes) at the inaccessible page
+        b->live[blk] = std::make_pair(n, std::make_pair(raw, len)); return blk;
+    }
+    static void s_free(UriMemoryManager *m, void *p) {
+        GBackend *b = (GBackend *)m->userData; b->n_free++; auto it = b->live.find((char *)p);
+        if (it == b->live.end()) { b->errors.push_back("backend free() of a pointer it never returned (or twice)"); return; }
+        munmap(it->second.second.first, it->second.second.second); b->live.erase(it);
+    }
+    ~GBackend() { for (auto &kv : live) munmap(kv.second.second.first, kv.second.second.second); }
+    size_t capacity(const char *p) const { for (auto &kv : live) if (p >= kv.first && p <= kv.first + kv.second.first) return kv.second.first; return 0; }
+    // the backend block that holds [p, p+want)
+    bool holds(const char *p, size_t want) const { for (auto &kv : live) if (p >= kv.first && p <= kv.first + kv.second.first && want <= (size_t)(kv.first + kv.second.first - p)) return true; return false; }
+};
+static const size_t G32 = (size_t)1 << 32;
+static const size_t GSZ[] = { 100, 8192, G32 - 16, G32 - 8, G32 - 7, G32 + 100, G32 + 4096, 2 * G32 + 8192 };
+static const NM GNM[] = { { 3, 1000 }, { 65537, 65536 }, { 3, (size_t)1 << 31 }, { (size_t)1 << 31, 2 } };
+enum { NGSZ = 8, NGNM = 4, GSLOTS = 2 };
+struct GOp { char kind; int slot; int arg; Str str() const { return fmt("%c%d.%d", kind, slot, arg); } };
+static void sparse(size_t size, std::vector<std::pair<size_t, size_t> > &iv) {       // [from, to) intervals, ascending, inside [0, size)
+    iv.clear(); auto add = [&](size_t a, size_t b) { if (b > size) b = size; if (a < b) iv.push_back(std::make_pair(a, b)); };
+    if (size <= 65536) { add(0, size); return; }
+    add(0, 16384); if (size > G32 - 64) add(G32 - 64, G32 + 4096 + 64 < size - 4096 ? G32 + 4096 + 64 : size - 4096); add(size - 4096, size);
+}
+struct GMachine {
+    GBackend be; UriMemoryManager mm; Slot slots[GSLOTS];
+    GMachine() { if (uriCompleteMemoryManager(&mm, &be.mm) != URI_SUCCESS) abort(); for (auto &s : slots) { s.live = false; s.size = 0; s.pat = 0; s.p = 0; } }
+    static void fill(Slot &s) { std::vector<std::pair<size_t, size_t> > iv; sparse(s.size, iv); for (auto &r : iv) for (size_t i = r.first; i < r.second; i++) s.p[i] = (char)(s.pat + i * 7); }
+    static Str check(const Slot &s, size_t upto, const char *where) { std::vector<std::pair<size_t, size_t> > iv; sparse(s.size, iv);
+        for (auto &r : iv) for (size_t i = r.first; i < r.second && i < upto; i++) if (s.p[i] != (char)(s.pat + i * 7)) return fmt("%s at offset %zu of a block of %zu bytes", where, i, s.size); return ""; }
+    Str verify() { for (auto &s : slots) if (s.live) { if (!be.holds(s.p, s.size)) return fmt("a live block of %zu bytes does not lie inside a backend block of sufficient size", s.size); Str w = check(s, s.size, "content of a live block damaged"); if (!w.empty()) return w; }
+        if (slots[0].live && slots[1].live) { char *a = slots[0].p, *b = slots[1].p; if (a < b + slots[1].size && b < a + slots[0].size) return "live blocks overlap"; }
+        return be.errors.empty() ? Str() : be.errors[0]; }
+    Str apply(const GOp &o, bool *na) {
+        *na = false; uint64_t m0 = be.n_malloc, f0 = be.n_free; errno = 0;
+        if (o.kind == 'f') { if (!slots[o.slot].live) { *na = true; return ""; } mm.free(&mm, slots[o.slot].p); slots[o.slot].live = false; return be.n_free == f0 + 1 ? "" : "free() did not release exactly one backend block"; }
+        size_t want = o.kind == 'a' ? GNM[o.arg].n * GNM[o.arg].s : GSZ[o.arg];
+        if (o.kind == 'm') { int t = !slots[0].live ? 0 : !slots[1].live ? 1 : -1; if (t < 0 || o.slot != -1) { *na = true; return ""; }
+            char *p = (char *)mm.malloc(&mm, want); if (!p) return fmt("malloc(%zu) failed although the backend can serve it", want);
+            if (!be.holds(p, want)) { Slot &s = slots[t]; s.live = false; return fmt("malloc(%zu): the block handed out is not usable over its full size (the backend was asked for too little)", want); }
+            Slot &s = slots[t]; s.live = true; s.size = want; s.pat = (unsigned char)(31 * (t + 1) + be.n_malloc); s.p = p; fill(s); (void)m0; return ""; }
+        // realloc / reallocarray on a live slot or on NULL
+        int t = o.slot; Slot old; old.live = false; old.size = 0; old.p = 0; old.pat = 0;
+        if (t >= 0) { if (!slots[t].live) { *na = true; return ""; } old = slots[t]; size_t cap = be.capacity(old.p); /* growing beyond a giant backend block copies it for real: left out */ if (cap >= ((size_t)1 << 20) && want > cap - sizeof(size_t)) { *na = true; return ""; } }
+        else { t = !slots[0].live ? 0 : !slots[1].live ? 1 : -1; if (t < 0) { *na = true; return ""; } }
+        char *p = (char *)(o.kind == 'r' ? mm.realloc(&mm, old.p, want) : mm.reallocarray(&mm, old.p, GNM[o.arg].n, GNM[o.arg].s));
+        if (!p) return fmt("reallocation to %zu bytes failed although the backend can serve it", want);
+        if (!be.holds(p, want)) { slots[t].live = false; return fmt("reallocation to %zu bytes: the block handed out is not usable over its full size", want); }
+        Slot &s = slots[t]; s.p = p; s.live = true;
+        if (old.live) { size_t keep = old.size < want ? old.size : want; Slot probe = old; probe.p = p; Str w = check(probe, keep, "reallocation lost the common prefix"); if (!w.empty()) { s.size = want; return w; }
+            if (p != old.p && be.n_free != f0 + 1) return "reallocation moved the block but did not release the old backend block exactly once";
+            if (p == old.p && be.n_free != f0) return "reallocation kept the block in place but released a backend block"; s.pat = old.pat; }
+        else s.pat = (unsigned char)(37 * (t + 1) + be.n_malloc);
+        s.size = want; fill(s); return "";
+    }
+    Str drain() { for (auto &s : slots) if (s.live) { mm.free(&mm, s.p); s.live = false; } if (!be.live.empty()) return fmt("%zu backend block(s) still allocated after the caller freed everything", be.live.size()); return be.errors.empty() ? Str() : be.errors[0]; }
+};
+static std::vector<GOp> galphabet() { std::vector<GOp> v; for (int a = 0; a < NGSZ; a++) v.push_back(GOp{ 'm', -1, a });
+    for (int s = -1; s < GSLOTS; s++) { if (s >= 0) v.push_back(GOp{ 'f', s, 0 }); for (int a = 0; a < NGSZ; a++) v.push_back(GOp{ 'r', s, a }); for (int a = 0; a < NGNM; a++) v.push_back(GOp{ 'a', s, a }); } return v; }
+// runs one sequence; returns false when some step is not applicable
+static bool giant_hist(const std::vector<GOp> &h, Str *viol) {
+    int sig; if ((sig = GUARD_ENTER()) != 0) { *viol = fmt("%s while executing an allocator sequence with blocks of 4 GiB and more", signame(sig)); return true; }
+    GMachine *m = new GMachine; bool ok = true;
+    for (size_t i = 0; i < h.size() && ok; i++) { bool na; Str w = m->apply(h[i], &na); if (na) { ok = false; break; } if (w.empty()) w = m->verify(); if (!w.empty()) { *viol = w + " (after " + h[i].str() + ")"; break; } }
+    if (ok && viol->empty()) { Str d = m->drain(); if (!d.empty()) *viol = d; }
+    delete m; GUARD_LEAVE(); return ok;
+}
+static Str enc_ghist(const std::vector<GOp> &h) { Str e = "giant`"; for (size_t i = 0; i < h.size(); i++) { if (i) e += ";"; e += h[i].str(); } return e; }
+static void giant_family(Ctx &ctx, Local &lc) {
+    std::vector<GOp> ops = galphabet(); int depth = ctx.secondary ? 2 : 3; uint64_t idx = 0, ran = 0;
+    std::vector<size_t> pos(1, 0); std::vector<GOp> h;
+    // depth-first over all sequences; a prefix with an inapplicable step is cut
+    std::function<void()> rec = [&]() {
+        if (ctx.expired()) return;
+        if (!h.empty()) { if (h.size() == 1 && !ctx.mine(idx++)) return; Str v; bool ok = giant_hist(h, &v); lc.replays++; ran++; ctx.progress++; if (!v.empty()) { ctx.violation("", enc_ghist(h), v); return; } if (!ok) return; }
+        if ((int)h.size() >= depth) return;
+        for (auto &o : ops) { h.push_back(o); rec(); h.pop_back(); }
+    };
+    rec(); ctx.st.count("giant_family_sequences", ran);
+}
 static std::vector<Op> alphabet() {
     std::vector<Op> v;
     for (int f = 0; f < 2; f++) { for (int a = 0; a < NSZ; a++) v.push_back(Op{ 'm', -1, a, f }); for (int a = 0; a < NNM; a++) v.push_back(Op{ 'c', -1, a, f }); }
@@ -174,6 +270,7 @@ void run(Ctx &ctx) {
             if (seen.insert(kk).second) { lc.states++; frontier.push_back(Node{ h }); }
         }
     }
+    giant_family(ctx, lc);
     // two completed managers over two different backends, alive at the same time: each must keep talking to its own backend
     if (ctx.worker == 0) {
         Machine a, b; int sig;
@@ -212,15 +309,16 @@ void replay(Ctx &ctx, const Str &enc) {
         if (bad || !a.be.live.empty() || !b.be.live.empty() || !a.be.errors.empty() || !b.be.errors.empty()) ctx.violation("", enc, "two managers completed from different backends do not keep to their own backend"); return; }
     if (enc.compare(0, 4, "test") == 0) { int sig; if ((sig = GUARD_ENTER()) != 0) { ctx.violation("", enc, fmt("%s in uriTestMemoryManager on a completed manager", signame(sig))); return; }
         Machine *m = new Machine; int rc = uriTestMemoryManager(&m->mm); if (rc != URI_SUCCESS) ctx.violation("", enc, fmt("uriTestMemoryManager returned %d", rc)); delete m; GUARD_LEAVE(); return; }
+    if (enc.compare(0, 6, "giant`") == 0) { std::vector<GOp> g; for (auto &t : split(enc.substr(6), ';')) { GOp o; if (t.size() >= 2 && sscanf(t.c_str() + 1, "%d.%d", &o.slot, &o.arg) == 2) { o.kind = t[0]; g.push_back(o); } } Str v; giant_hist(g, &v); if (!v.empty()) ctx.violation("", enc, v); return; }
     std::vector<Op> h; for (auto &s : split(enc, ';')) { Op o; if (parse_op(s, o)) h.push_back(o); } Str v; replay_hist(ctx, lc, h, &v, 99); if (!v.empty()) ctx.violation("", enc, v);
 }
 Str coverage(const Ctx &, const Stats &st) {
     uint64_t md = 0; auto it = st.sets.find("max_depth"); if (it != st.sets.end()) for (auto &s : it->second) md = std::max<uint64_t>(md, strtoull(s.c_str(), 0, 10));
     return jkv("states", st.get("states")) + ", " + jkv("transitions", st.get("transitions")) + ", " + jkv("traces_validated_against_impl", st.get("evaluations")) + ", " + jkv("evaluations", st.get("evaluations")) + ", " + jkv("distinct_nontrivial", st.get("states")) + ", " +
            jkv("max_depth", md) + ", " + jkv("alphabet_size", st.get("alphabet")) + ", " + jkv("transitions_with_backend_failure", st.get("transitions_with_backend_failure")) + ", " +
-           jkv("transitions_malloc", st.get("op_m")) + ", " + jkv("transitions_calloc", st.get("op_c")) + ", " + jkv("transitions_realloc", st.get("op_r")) + ", " + jkv("transitions_reallocarray", st.get("op_a")) + ", " + jkv("transitions_free", st.get("op_f")) + ", " +
+           jkv("transitions_malloc", st.get("op_m")) + ", " + jkv("transitions_calloc", st.get("op_c")) + ", " + jkv("transitions_realloc", st.get("op_r")) + ", " + jkv("transitions_reallocarray", st.get("op_a")) + ", " + jkv("transitions_free", st.get("op_f")) + ", " + jkv("giant_family_sequences", st.get("giant_family_sequences")) + ", " +
            jkvs("rule", "explicit-state BFS on the manager returned by uriCompleteMemoryManager over a recording malloc/free-only backend: alphabet = malloc(s), calloc(n,s), realloc(slot|NULL, s), reallocarray(slot|NULL, n, s), free(slot|NULL) with s in {0,1,7,8,24,4096,SIZE_MAX,SIZE_MAX-7,SIZE_MAX-8,SIZE_MAX/2+1}, 11 (n,s) pairs incl. exact overflows, up to 3 live blocks, and for each call the choice 'backend malloc succeeds / fails' (at most 2 failures per history); a state is (sizes of live blocks, failures used, backend blocks) below its first operation; every history is replayed on a fresh manager; after every call the boring model is compared (pattern of every live block, disjointness, zeroing, prefix preservation, ENOMEM on overflow, backend free exactly once) and at the end of every history everything is freed and the backend must be empty.") + ", " + jsamples(st);
 }
-Check chk = { "C15", "model_checking", run, replay, coverage, "block contents are checked with per-slot byte patterns; the state key abstracts contents (two histories with the same first call, the same live sizes, failures used and backend block count have the same futures)|requests above 4 GiB are refused by the test backend like by a real allocator" };
+Check chk = { "C15", "model_checking", run, replay, coverage, "block contents are checked with per-slot byte patterns; the state key abstracts contents (two histories with the same first call, the same live sizes, failures used and backend block count have the same futures)|in the BFS, requests above 4 GiB are refused by the test backend like by a real allocator; blocks of 4 GiB and more are exercised by the separate giant family (all sequences up to length 3 over 8 sizes and 4 nmemb/size pairs around 2^32, address space only, contents checked on sparse offsets; growing an already giant block is left out)" };
 REGISTER_CHECK(chk);
 }
